@@ -1,3 +1,4 @@
+mod cc;
 mod keyupdate;
 mod ranges;
 mod reasm;
@@ -9,6 +10,7 @@ fn main() {
     let cmd = args.first().map(|s| s.as_str()).unwrap_or("");
     let rest = &args[1.min(args.len())..];
     let out = match cmd {
+        "cc-run" => cc::run(rest),
         "reasm-replay" => reasm::replay(rest),
         "reasm-record" => reasm::record(rest),
         "ranges-replay" => ranges::replay(rest),
